@@ -165,7 +165,8 @@ def sv_ref(ty, t):
     return SV(ty, t)
 
 
-REF_TYPES = ('set', 'list', 'pairlist', 'dict', 'fdict', 'graph', 'kripke', 'keys', 'reflist', 'fseq', 'bnode')
+REF_TYPES = ('set', 'list', 'dlist', 'pairlist', 'dict', 'fdict', 'graph', 'kripke', 'keys', 'reflist', 'fseq', 'bnode')
+# 'dlist': a list without repeated elements that the code only reads (len, iteration, membership)
 
 
 class Coll(object):
@@ -301,3 +302,37 @@ def _has_binder(t, seen=None):
             return True
         return any(_has_binder(c, seen) for c in t.children())
     return False
+
+
+# ---- reflexive-transitive closure of a relation (trusted mathematics, DESIGN.md 10.7) ---------
+# rtc(E)[x, y]: there is a finite E-path from x to y (possibly empty).  First-order consequences are
+# given with e-matching patterns; the induction principle and the converse law are second-order
+# schemas that sidecar cut lemmas instantiate syntactically.
+rtc = z3.Function('rtc', Rel, Rel)
+rtc_last = z3.Function('rtc_last', Rel, H, H, H)      # the node before y on some E-path x ->* y (x != y)
+_E, _E2 = z3.Const('E!tc', Rel), z3.Const('E2!tc', Rel)
+_Z = z3.Const('Z!tc', SetH)
+_x, _y, _z = z3.Const('x!tc', H), z3.Const('y!tc', H), z3.Const('z!tc', H)
+_a, _b = z3.Const('a!tc', H), z3.Const('b!tc', H)
+
+
+def rtc_axioms():
+    R = rtc(_E)
+    return [
+        z3.ForAll([_E, _x, _y], z3.Implies(_E[_x, _y], R[_x, _y]), patterns=[z3.MultiPattern(_E[_x, _y], rtc(_E))]),
+        z3.ForAll([_E, _x, _y, _z], z3.Implies(z3.And(R[_x, _y], R[_y, _z]), R[_x, _z]),
+                  patterns=[z3.MultiPattern(R[_x, _y], R[_y, _z])]),
+        z3.ForAll([_E, _x, _y], z3.Implies(z3.And(R[_x, _y], _x != _y),
+                                           z3.And(R[_x, rtc_last(_E, _x, _y)], _E[rtc_last(_E, _x, _y), _y])),
+                  patterns=[rtc_last(_E, _x, _y)]),       # only where a proof names the term (R[x, y] would loop)
+    ]
+
+
+# induction: a set that contains x and is closed under E contains everything E-reachable from x
+RTC_INDUCTION = z3.ForAll([_E, _Z], z3.Implies(
+    z3.ForAll([_a, _b], z3.Implies(z3.And(_Z[_a], _E[_a, _b]), _Z[_b])),
+    z3.ForAll([_x, _y], z3.Implies(z3.And(_Z[_x], rtc(_E)[_x, _y]), _Z[_y]))))
+# the closure of the converse relation is the converse of the closure
+RTC_CONVERSE = z3.ForAll([_E, _E2], z3.Implies(
+    z3.ForAll([_a, _b], _E[_a, _b] == _E2[_b, _a]),
+    z3.ForAll([_x, _y], rtc(_E)[_x, _y] == rtc(_E2)[_y, _x])))
